@@ -9,7 +9,7 @@ PROP = dict(
             "is sent, reason Policy for time, NTS flag false for plain requests."),
     outside=("the serialisation-failure registration (InternalError, Ignore): c21_once_buf0/buf47 and c16_wire_v4_uid16_mac9_time run out of memory (drop glue of "
              "std::io::Error/Box<dyn Error> on every `?` of the serialiser; kept in the crate, not registered) - by reading, handle() registers exactly once on that "
-             "branch too; NAK registration for undecryptable NTS requests (see C15: path does not fit; native test checks calls == 1); NTS requests whose cookie decodes (nts flag true for time/deny: C19 harnesses of np_srvnts_h); the mapping of (reason, kind) to ntpd's counters "
+             "branch too (native test native_answer_does_not_fit checks one instance); registrations for datagrams the parser rejects (see C15: paths do not fit; native sampling checks calls == 1 and (ParseError, Ignore)); NAK registration for undecryptable NTS requests (see C15: path does not fit; native test checks calls == 1); NTS requests whose cookie decodes (nts flag true for time/deny: C19 harnesses of np_srvnts_h); the mapping of (reason, kind) to ntpd's counters "
              "(c21_counters in ntpd_h); inputs outside the bounds of C15/C16"),
     assumptions=["as C15/C16"],
     stub_notes=["as C15/C16"],
@@ -17,9 +17,7 @@ PROP = dict(
         H(NS, "c21", "c21_once", "larger buffer than the request: one ProvideTime; rejected datagrams end-to-end: one (ParseError, Ignore) each"),
         H(NS, "c15", "c15_policy_v4", "ignored datagrams registered once with the deciding reason; answered ones not registered by the policy half"),
         H(NS, "c15", "c15_policy_ratelimit", "RateLimit reason", timeout=400),
-        H(NS, "c15", "c15_reject_wire_modes_v4", "rejected datagrams end-to-end: exactly one (ParseError, Ignore) each"),
-        H(NS, "c15", "c15_reject_wire_versions", "unknown versions end-to-end: exactly one (ParseError, Ignore) each"),
-        H(NS, "c15", "c15_reject_short", "short datagrams end-to-end: exactly one (ParseError, Ignore) each"),
+        H(NS, "c15", "c15_reject_mode4", "non-client datagram: exactly one registration, kind Ignore, reason of the deciding step (Policy/ParseError), nts=false"),
         H(NS, "c16", "c16_wire_v4_time", "time answer registered once as ProvideTime/Policy"),
         H(NS, "c16", "c16_wire_v4_deny", "DENY registered once as Deny"),
         H(NS, "c16", "c16_wire_v4_deny_nts", "DENY (NTS required) registered once, nts=false"),
